@@ -66,6 +66,9 @@ const TEXTS: &[&[u8]] = &[
     b"LONG",
     "combining e\u{301}".as_bytes(),
     b"ends (glob)",
+    "wide blank before a tail\u{3000}(glob)".as_bytes(),
+    "nbsp before a tail\u{a0}(?)".as_bytes(),
+    b"[1]",
 ];
 const TITLES: &[&str] = &["a title", "", "multi\nline title", "ünï 世界 title", "title with trailing space "];
 const COMMANDS: &[&str] = &["cmd", "multi \\\nline | command", "echo 世界", "printf '%s' \"$X\""];
